@@ -2,7 +2,7 @@
 import re
 from ..lib.cfgq import dominating_guards, switch_edges
 from ..lib.facts import is_callee, callee_fn, sp_str
-from ..lib.trace import Tracer, canon, strip, walk
+from ..lib.trace import Tracer, canon, strip, walk, canon_full
 
 LEVEL_TEXT = ("Dataflow rules on the MIR: (N1 freshness) every attribute set that receives a debug attribute is fresh — Attributes::new() of "
               "the same body, the attributes of the graph node just returned by add_graph_node, or the edge that add_edge just created (Ok "
@@ -16,6 +16,7 @@ LEVEL_NOTE = ("Not decided: equality of the two graphs after deleting the debug 
               "the right ones is C07's clause (E7.l).")
 LEVEL_TEXT += (' The text of a scoped variable is written as scope then name, each formatted directly (no loop).')
 
+LEVEL_TEXT += (' Display for Call writes `(` function, ` ` + parameter per parameter, `)`.')
 DEBUG_FIELDS = ("location_attr", "variable_name_attr", "match_node_attr")
 CFG = "tsg::execution::ExecutionConfig"
 
@@ -206,6 +207,51 @@ def run(prog, rep):
                   % (ty.rsplit("::", 1)[-1], got_seq, " inside a loop" if _nl(f.body) else "", want_seq))
         rep.check(read <= allowed and "name" in read, "C15.N3", "Display for %s :: source text only" % ty.rsplit("::", 1)[-1], f.loc(), "prints %s" % sorted(read),
                   "the printed form of %s also depends on %s: the variable-name debug attribute is no longer the variable's text" % (ty.rsplit("::", 1)[-1], sorted(read - allowed)))
+    # a variable scoped on a call prints the call as `(` function (` ` parameter)* `)`: the text written before, inside and after the
+    # parameter loop, however the writes are split
+    cf = [f for f in prog.shape_fns() if f.self_path == "tsg::ast::Call" and f.trait == "std::fmt::Display" and f.name == "fmt"]
+    if len(cf) != 1:
+        rep.violation("C15.N3", "anchor-lost:Display for Call", "", "not found")
+    else:
+        f = cf[0]
+        body, ftr = f.body, Tracer(f.body)
+        from ..lib.cfgq import natural_loops as _nl2
+
+        def pieces(e):
+            """decode what one write puts out: literal text and `{}` holes (named after the displayed operand)"""
+            c = canon_full(e)
+            m = re.match(r'^Arguments::from_str\("(.*)"\)$', c)
+            if m:
+                return m.group(1)
+            m = re.match(r'^Arguments::new\(&\*b"(.*)", &array\{(.*)\}\)$', c)
+            if not m:
+                return "?"
+            raw = bytes(m.group(1), "latin-1").decode("unicode_escape").encode("latin-1")
+            args = re.findall(r"Argument::new_(?:display|debug)\(&\*?(?:\(Iterator::next\(.*?\) as Some\)\.0|arg:self\.(\w+))\)", m.group(2))
+            out, i, ai = "", 0, 0
+            while i < len(raw):
+                bt = raw[i]
+                if bt == 0:
+                    break
+                if bt >= 0x80:
+                    out += "{%s}" % ((args[ai] or "item") if ai < len(args) else "?")
+                    ai += 1
+                    i += 1
+                else:
+                    out += raw[i + 1:i + 1 + bt].decode("latin-1")
+                    i += 1 + bt
+            return out
+        loops = _nl2(body)
+        inloop = set().union(*[bl for _h, bl in loops]) if loops else set()
+        writes = [(b, pieces(ftr.operand(t["args"][1]))) for b, t in body.calls() if is_callee(t, r"Formatter::<'_>::write_fmt$|fmt::Write::write_fmt$")]
+        writes += [(b, canon(strip(ftr.operand(t["args"][1]))).strip('"')) for b, t in body.calls() if is_callee(t, r"Formatter::<'_>::write_str$")]
+        writes.sort(key=lambda x: sum(1 for y in writes if body.dominates(y[0], x[0])))
+        pre = "".join(t_ for b, t_ in writes if b not in inloop and loops and body.dominates(b, loops[0][0]))
+        mid = "".join(t_ for b, t_ in writes if b in inloop)
+        post = "".join(t_ for b, t_ in writes if b not in inloop and not (loops and body.dominates(b, loops[0][0])))
+        okc = len(loops) == 1 and pre == "({function}" and mid == " {item}" and post == ")"
+        rep.check(okc, "C15.N3", "Display for Call :: text", f.loc(), "`(` function (` ` parameter)* `)`",
+                  "a call is printed as `%s` [`%s`]* `%s`, not `(` function (` ` parameter)* `)`: the variable-name debug attribute of a variable scoped on a call is not the variable's text" % (pre, mid, post))
     feats = {}
     for mode, nm, idx in (("strict", "execute", "full_match_stanza_capture_index"), ("lazy", "execute_lazy", "full_match_file_capture_index")):
         fl = [f for f in prog.shape_fns() if f.self_path == "tsg::ast::CreateGraphNode" and f.name == nm]
